@@ -22,7 +22,8 @@
  *   <idx> <op> ret=<r> errno=<class> cb=<n> da=<tracked requests> live=<tracked live blocks> [val=<digest>]
  * With <k> <opindex>: before op <opindex> the k-th tracked request is made to fail.  After
  * that op a line "F <idx> injected=<0|1>" is printed; if the op failed and the fault was injected
- * the same op is executed again without a fault and its line is prefixed by "R ".
+ * the same op is executed again without a fault and its line is prefixed by "R " - unless a fifth argument
+ * <norepeat> != 0 is given: then the failed call is not repeated and the rest of the history runs on what it left behind.
  * At the end every object still alive is released with its matching free function:
  *   END live=<n>     (must be 0)
  *
@@ -1060,12 +1061,13 @@ static void watchdog(int seconds)
 
 int main(int argc, char **argv)
 {
-    if (argc < 3) { fprintf(stderr, "usage: mem_harness script workdir [k opindex]\n"); return 2; }
+    if (argc < 3) { fprintf(stderr, "usage: mem_harness script workdir [k opindex [norepeat]]\n"); return 2; }
     FILE *fp = fopen(argv[1], "r");
     if (fp == NULL) { perror(argv[1]); return 2; }
     workdir = argv[2];
     long k = argc >= 5 ? strtol(argv[3], NULL, 10) : 0;
     long target = argc >= 5 ? strtol(argv[4], NULL, 10) : -1;
+    bool norepeat = argc >= 6 && strtol(argv[5], NULL, 10) != 0;	/* the failed call is NOT repeated: the rest of the history sees what it left */
     long idx = 0;
     static char keep[8192];
     setvbuf(stdout, NULL, _IOLBF, 0);
@@ -1098,7 +1100,7 @@ int main(int argc, char **argv)
 	    printf("\n");
 	    if (idx == target && pass == 0) {
 		printf("F %ld injected=%ld failed=%d\n", idx, injected, op_failed ? 1 : 0);
-		if (injected && op_failed) {		/* repeat without the fault */
+		if (injected && op_failed && !norepeat) {	/* repeat without the fault */
 		    bool keep_failed = op_failed;
 		    if (pslot >= 0) prop_dump_line("S1", idx, target_root(op, pslot));
 		    op_failed = keep_failed;
